@@ -134,10 +134,15 @@ func actualUserFlags(s *world.Sess, flagCount uint32) string {
 		return "<nil>"
 	}
 	var l []string
-	for f := uint32(8); f < 8+flagCount; f++ {
-		if s.St.GetFlag(f) {
-			l = append(l, fmt.Sprint(f))
+	pm, _ := world.Guard(func() {
+		for f := uint32(8); f < 8+flagCount; f++ {
+			if s.St.GetFlag(f) {
+				l = append(l, fmt.Sprint(f))
+			}
 		}
+	})
+	if pm != "" {
+		return "<reading the flags panicked: " + pm + ">"
 	}
 	return strings.Join(l, ",")
 }
